@@ -95,7 +95,8 @@ def replay_case(col, item):
             col.violation("parse-wrong-fields", {"abstract": abstract, "concrete": conc, "expected": exp_parsed,
                                                   "observed": parsed})
         # get_info: start, end, attributes
-        for cov in (("none", "hour", "day") if tpl["ek"] == "none" else ("none",)):
+        # (with end fields in the name the end is the one the name gives, whatever time_coverage says)
+        for cov in (("none", "hour", "day") if tpl["ek"] == "none" else ("none", "hour")):
             fsc = fileset(cov)
             exp_end = to_dt(case["cov"][cov]) if tpl["ek"] == "none" else to_dt(end_abs)
             try:
